@@ -36,6 +36,9 @@
      S_w_store_update_unwrap S_w_store_triggered_unwrap S_r_confirmations_underflow S_r_missed_log_underflow
      S_r_reorg_load_tracker_unwrap S_r_reorg_update_unwrap S_r_stale_update_unwrap.
    No site is left as a hypothesis.
+   Statements: step_never_aborts, step_big (BigInv preserved), big_init, no_abort_seq, no_abort_seq_deep (the
+   OConnect clause of the envelope is implied by a bootstrap 5 blocks above the window), no_poison,
+   run_le_irrelevant, and one witness per hypothesis showing it cannot be dropped (section 10).
 
    Poisoning: Tower.v does not carry a poisoned-lock flag; it represents the death of the tower by
    `run` stopping at the first OAbort (the history is cut, nothing later is answered).  `no_poison`
@@ -1247,4 +1250,114 @@ Lemma chainb_spec t o : chainb t o = true <-> chain_step t o.
 Proof.
   destruct o as [u| | | |hash txs|]; cbn [chainb chain_step]; try tauto.
   rewrite negb_true_iff. apply memN_false.
+Qed.
+
+(* ------------------------------------------------------------------------------------------ *)
+(* 13. the OConnect clause of the envelope is implied by a bootstrap at least 5 blocks above the window
+   (teosd: the window is the last 100 blocks and start-up refuses a tip below 100; with a tip >= 105 - or
+   no reorg deeper than tip - 5 - no block is ever connected below height 6).  tip - |blocks| of the
+   responder's index never decreases. *)
+
+Definition slack (i : txindex N) : Z := (ti_tip i - Z.of_nat (length (ti_blocks i)))%Z.
+
+Lemma slack_update (i : txindex N) b i' : ti_update i b = Some i' -> (slack i <= slack i')%Z.
+Proof.
+  intros E. unfold slack. destruct (ti_update_blocks i b i' E) as [_ [Ht [[_ [h0 Hb]]|[_ Hb]]]].
+  - apply (f_equal (@length N)) in Hb. rewrite app_length in Hb. cbn [length] in Hb. lia.
+  - rewrite Hb, app_length. cbn [length]. lia.
+Qed.
+
+Lemma slack_disconnect (i : txindex N) hash : (slack i <= slack (ti_disconnect i hash))%Z.
+Proof.
+  unfold slack, ti_disconnect. destruct (aget (ti_txs i) hash); [|lia].
+  destruct (ti_blocks i) as [|b0 r0] eqn:E0; cbn [ti_blocks ti_tip]; [cbn [length]; lia|].
+  rewrite removelast_length. cbn [length]. lia.
+Qed.
+
+(* how one step moves the responder's index *)
+Lemma step_r_index le t o sc :
+  BigInv t -> envb t o = true ->
+  match o with
+  | OConnect hash txs => ti_update (r_index t) (index_block hash txs) = Some (r_index (fst (step le t o sc)))
+  | ODisconnect => match last_hash t with
+                   | Some hash => r_index (fst (step le t o sc)) = ti_disconnect (r_index t) hash
+                   | None => r_index (fst (step le t o sc)) = r_index t
+                   end
+  | _ => r_index (fst (step le t o sc)) = r_index t
+  end.
+Proof.
+  intros HB Henv. pose proof HB as [HI HC HX HE HS].
+  destruct o as [u|signer loc b delay sig|signer loc|signer|hash txs|].
+  - cbn [step wrap]. unfold gk_add_update_user.
+    destruct (gk_get (set_rpc_log t []) u) as [ui|].
+    + destruct (u32_add (u_slots ui) _); reflexivity.
+    + destruct (u32_add (gk_height _) _); [|reflexivity]. destruct (amem _ u); reflexivity.
+  - cbn [step]. destruct (w_add_appointment sc (set_rpc_log t []) signer loc b delay sig) as [r0 t0|s0 t0] eqn:Ea; cbn [wrap fst].
+    + apply add_appointment_indexes in Ea. exact (proj1 Ea).
+    + exfalso. pose proof (add_appointment_ok sc (fresh t) signer loc b delay sig (bi_inv _ (big_fresh t HB))
+                             (ii_val _ (bi_idx _ (big_fresh t HB)))) as Hok.
+      change (fresh t) with (set_rpc_log t []) in Hok. rewrite Ea in Hok. exact Hok.
+  - destruct (get_unchanged le t sc signer loc) as [r Hr]. rewrite Hr. reflexivity.
+  - destruct (getsub_unchanged le t sc signer) as [r Hr]. rewrite Hr. reflexivity.
+  - cbn [envb] in Henv. apply N.leb_le in Henv.
+    destruct (connect_phases_ok le t hash txs sc HB Henv) as [tg [tw [t' [Eg [Ew [Er [Es [HIg [HIw _]]]]]]]]].
+    rewrite Es. cbn [fst].
+    destruct (TowerLedger.gk_block_spec _ _ _ Eg) as [_ [_ [_ [_ [Hig _]]]]].
+    destruct (w_block_connected_indexes _ _ _ _ _ Ew) as [_ [Hiw _]].
+    destruct (r_block_connected_facts le sc tw _ _ t' HIw Er) as [lim [t5 F]].
+    pose proof (rf_index _ _ _ _ _ _ _ F) as Eur. rewrite Hiw, Hig in Eur. exact Eur.
+  - destruct (last_hash t) as [hash|] eqn:El.
+    + destruct (disconnect_shape le t sc hash El (disconnect_height_pos t hash HC (ii_len _ HX) El)) as [t' [Es [Hi _]]].
+      rewrite Es. exact Hi.
+    + cbn [step]. change (last_hash (set_rpc_log t [])) with (last_hash t). rewrite El. reflexivity.
+Qed.
+
+Lemma step_slack le t o sc :
+  BigInv t -> envb t o = true -> (slack (r_index t) <= slack (r_index (fst (step le t o sc))))%Z.
+Proof.
+  intros HB Henv. pose proof (step_r_index le t o sc HB Henv) as H.
+  destruct o as [u|signer loc b delay sig|signer loc|signer|hash txs|]; try (rewrite H; lia).
+  - apply slack_update in H. exact H.
+  - destruct (last_hash t) as [hash|]; rewrite H; [apply slack_disconnect|lia].
+Qed.
+
+(* the envelope without its OConnect clause: only registrations are constrained *)
+Definition envb_reg (t : tower) (o : op) : bool := match o with OConnect _ _ => true | _ => envb t o end.
+
+Fixpoint in_envelope_reg (le : bool) (t : tower) (h : list (op * script)) : bool :=
+  match h with
+  | [] => true
+  | (o, sc) :: r => envb_reg t o && in_envelope_reg le (fst (step le t o sc)) r
+  end.
+
+Lemma env_reg_env le : forall h t,
+  BigInv t -> (5 <= slack (r_index t))%Z -> in_envelope_reg le t h = true -> chain_disciplined le t h = true ->
+  in_envelope le t h = true.
+Proof.
+  induction h as [|[o sc] h IH]; intros t HB Hsl He Hc; [reflexivity|].
+  cbn [in_envelope in_envelope_reg chain_disciplined] in *. apply andb_true_iff in He, Hc.
+  destruct He as [He1 He2]. destruct Hc as [Hc1 Hc2].
+  assert (Henv : envb t o = true).
+  { destruct o; try exact He1. cbn [envb]. apply N.leb_le. rewrite RETRY_6.
+    pose proof (ci_tip _ (bi_chain _ HB)). unfold slack in Hsl. lia. }
+  rewrite Henv. cbn [andb]. apply IH; [exact (step_big le t o sc HB Henv Hc1)| |exact He2|exact Hc2].
+  pose proof (step_slack le t o sc HB Henv). lia.
+Qed.
+
+(* no_abort_seq for a tower bootstrapped at least 5 blocks above its window: the envelope constrains
+   registrations only (the u32 range of expiries and slots) *)
+Theorem no_abort_seq_deep le c h0 blocks t0 h :
+  init c h0 blocks = Some t0 -> NoDup (map fst blocks) -> N.of_nat (length blocks) + 5 <= h0 ->
+  in_envelope_reg le t0 h = true -> chain_disciplined le t0 h = true ->
+  Forall not_abort (snd (run le t0 h)).
+Proof.
+  intros Hi Hnd Hlen He Hc.
+  assert (Hlen0 : N.of_nat (length blocks) <= h0) by lia.
+  pose proof (big_init c h0 blocks t0 Hi Hnd Hlen0) as HB.
+  apply (no_abort_seq le c h0 blocks t0 h Hi Hnd Hlen0); [|exact Hc].
+  apply env_reg_env; try assumption.
+  unfold init in Hi. destruct (ti_new _ _) as [wc|]; [|discriminate].
+  destruct (ti_new (map (fun b => index_block (fst b) (snd b)) blocks) (Z.of_N h0)) as [ri|] eqn:Er; [|discriminate].
+  inversion Hi. subst t0. cbn [r_index]. destruct (ti_new_blocks _ _ _ Er) as [Hrb [_ Hrt]].
+  unfold slack. rewrite Hrb, Hrt, map_length, rev_length, map_length. lia.
 Qed.
